@@ -5,7 +5,7 @@
    session-reset NOTIFICATION only when [judge] says the NLRI cannot be located. *)
 From Coq Require Import List NArith ZArith Bool Lia ZifyBool ZifyNat ZifyN.
 From RB Require Import Base.Val Base.Bytes Model.Caps Model.Stream Model.Wire Model.WireNlri Model.WireUpdate Model.WireMsg
-     Spec.Rfc7606 Model.Validate Proofs.Wire Proofs.WireNlri Proofs.WireUpdate Proofs.Validate.
+     Spec.Rfc7606 Model.Validate Proofs.Wire Proofs.WireNlri Proofs.WireUpdate Proofs.WireMsg Proofs.Validate.
 Import ListNotations.
 Open Scope N_scope.
 
@@ -1066,4 +1066,322 @@ Proof.
       * destruct reach0; reflexivity.
       * destruct (match mpr with None => true | Some (_, e, _) => is_nil e end) eqn:E; [|reflexivity].
         rewrite (mpk_empty _ E). reflexivity.
+Qed.
+
+(* ------------------------------------------------ (C) a reset only if the Spec cannot locate the NLRI *)
+Definition nofail {A} (r : res A) : Prop := match r with Fail _ => False | _ => True end.
+
+Lemma nf_bind {A B} (e : res A) (k : A -> res B) : nofail e -> (forall a, nofail (k a)) -> nofail (bind e k).
+Proof. destruct e; cbn; auto. Qed.
+
+Lemma count_hops_nofail : forall fuel b acc, nofail (count_hops_fuel fuel b acc).
+Proof.
+  induction fuel as [|f IH]; intros b acc; destruct b as [|t [|cnt r]]; cbn [count_hops_fuel]; try exact I.
+  apply IH.
+Qed.
+
+Lemma take_prefix_nofail : forall fuel b n, nofail (take_prefix_fuel fuel b n).
+Proof.
+  induction fuel as [|f IH]; intros b n; cbn [take_prefix_fuel]; (destruct (n =? 0); [exact I|]);
+    destruct b as [|t [|cnt r]]; try exact I.
+  destruct (t =? 2).
+  - destruct (Nat.ltb _ _); [exact I|]. apply nf_bind; [apply IH|intros; exact I].
+  - destruct (Nat.ltb _ _); [exact I|]. destruct (t =? 1); (apply nf_bind; [apply IH|intros; exact I]).
+Qed.
+
+Lemma bin_of_nofail a : nofail (bin_of a).
+Proof. unfold bin_of. destruct (a_data a); exact I. Qed.
+
+Lemma reconcile_as4_nofail attrs : nofail (reconcile_as4 attrs).
+Proof.
+  unfold reconcile_as4.
+  apply nf_bind.
+  - destruct (find_code 18 _) as [a4|]; [|exact I]. destruct (find_code 7 _) as [agg|]; [|exact I].
+    apply nf_bind; [apply bin_of_nofail|]. intros b. destruct b as [|x1 [|x2 [|x3 [|x4 b]]]]; try exact I.
+    destruct (_ =? 23456); [|exact I]. apply nf_bind; [apply bin_of_nofail|]. intros; exact I.
+  - intros [attrs3 ig]. destruct ig; [exact I|].
+    destruct (find_code 17 attrs) as [p4|]; [|exact I]. destruct (find_code 2 attrs3) as [p|]; [|exact I].
+    apply nf_bind; [apply bin_of_nofail|]. intro b. apply nf_bind; [apply bin_of_nofail|]. intro b4.
+    apply nf_bind; [|intros; exact I].
+    unfold as_path_reconcile, count_hops.
+    apply nf_bind; [apply count_hops_nofail|]. intro c1. apply nf_bind; [apply count_hops_nofail|]. intro c2.
+    destruct (c1 <? c2); [exact I|]. apply nf_bind; [apply take_prefix_nofail|]. intros; exact I.
+Qed.
+
+Lemma upd_finish_nofail cd s reach unreach mpr mpu : nofail (upd_finish cd s reach unreach mpr mpu).
+Proof.
+  unfold upd_finish.
+  assert (Hrec : nofail (if c_two_byte cd then reconcile_as4 (u_attrs s) else Ok (u_attrs s)))
+    by (destruct (c_two_byte cd); [apply reconcile_as4_nofail|exact I]).
+  destruct mpu as [[fam [|e es]]|].
+  - destruct (_ && _); [exact I|]. apply nf_bind; [exact Hrec|]. intros; exact I.
+  - apply nf_bind; [exact Hrec|]. intros; exact I.
+  - apply nf_bind; [exact Hrec|]. intros; exact I.
+Qed.
+
+Lemma judge_parts_unloc1 cd wd nl tl ok :
+  (if is_nil_b nl then Some [] else nlri_field cd F_IPV4 true nl) = None -> judge_parts cd wd nl tl ok = unlocatable.
+Proof. intro H. unfold judge_parts. rewrite H. destruct (_ || _); reflexivity. Qed.
+Lemma judge_parts_unloc2 cd wd nl tl ok :
+  (if is_nil_b wd then Some [] else nlri_field cd F_IPV4 false wd) = None -> judge_parts cd wd nl tl ok = unlocatable.
+Proof.
+  intro H. unfold judge_parts. rewrite H. destruct (_ || _); [reflexivity|].
+  destruct (if is_nil_b nl then _ else _); reflexivity.
+Qed.
+Lemma judge_parts_unloc3 cd wd nl tl ok :
+  match first_code 14 tl with None => Some [] | Some t => mp_reach_keys cd (t_val t) end = None ->
+  judge_parts cd wd nl tl ok = unlocatable.
+Proof.
+  intro H. unfold judge_parts. rewrite H. destruct (_ || _); [reflexivity|].
+  destruct (if is_nil_b nl then _ else _); [|reflexivity]. destruct (if is_nil_b wd then _ else _); reflexivity.
+Qed.
+Lemma judge_parts_unloc4 cd wd nl tl ok :
+  match first_code 15 tl with None => Some [] | Some t => mp_unreach_keys cd (t_val t) end = None ->
+  judge_parts cd wd nl tl ok = unlocatable.
+Proof.
+  intro H. unfold judge_parts. rewrite H. destruct (_ || _); [reflexivity|].
+  destruct (if is_nil_b nl then _ else _); [|reflexivity]. destruct (if is_nil_b wd then _ else _); [|reflexivity].
+  destruct (match first_code 14 tl with None => _ | Some t => _ end); reflexivity.
+Qed.
+
+Theorem C05_reset_only_if_unlocatable cd hdr frame e :
+  parse_update no_other cd hdr frame = Fail e -> v_locatable (judge cd frame) = false.
+Proof.
+  intro H. unfold parse_update in H.
+  destruct (upd_locate hdr frame) as [[[[wl wd] c] al]|e0|t0] eqn:Hloc; cbn [bind] in H; [| |discriminate].
+  2:{ unfold judge. rewrite (locate_fail _ _ _ Hloc). reflexivity. }
+  destruct (proj2 (upd_locate_spec no_other no_other_consumes hdr frame) _ _ _ _ Hloc) as (Hal & Hwd & Hlen).
+  pose proof (attr_loop_sim (c_two_byte cd) (S (length c)) c al u0 ltac:(lia) Hal) as Hsim.
+  rewrite (judge_cases _ _ _ _ _ _ _ Hloc). unfold nat_of in *.
+  destruct (tlv_scan (S (length c)) (firstn (N.to_nat al) c)) as [tl ok]. cbn [fst snd].
+  destruct (tlv_fold (c_two_byte cd) u0 tl) as [s|] eqn:Efold.
+  2:{ (* MP_REACH_NLRI or MP_UNREACH_NLRI twice *)
+      apply fold_none in Efold. unfold judge_parts.
+      assert (Ed : Nat.ltb 1 (count_code 14 tl) || Nat.ltb 1 (count_code 15 tl) = true).
+      { destruct Efold as [[Hs _]|[Hc|[[Hs _]|Hc]]]; try discriminate; apply orb_true_iff;
+          [left|right]; apply PeanoNat.Nat.ltb_lt; lia. }
+      rewrite Ed. reflexivity. }
+  destruct Hsim as (r & Hloop & Hok). rewrite Hloop in H. cbn [bind] in H.
+  destruct ((len frame - (23 + wl + al) =? 0) && (al =? 0) && (wl =? 0)); [discriminate|].
+  set (s2 := post_errs (len frame - (23 + wl + al)) r s) in *.
+  (* legacy NLRI *)
+  destruct (if negb (len frame - (23 + wl + al) =? 0)
+            then ap <- req MAL (fam_lookup (c_fams cd) F_IPV4);; nlri_list no_other F_IPV4 ap true (skipn (N.to_nat al) c)
+            else Ok []) as [reach|e1|t1] eqn:Hr; cbn [bind] in H; [| |discriminate].
+  2:{ rewrite judge_parts_unloc1; [reflexivity|].
+      rewrite is_nil_len, len_skipn.
+      replace (len c - N.of_nat (N.to_nat al)) with (len frame - (23 + wl + al)) by lia.
+      destruct (len frame - (23 + wl + al) =? 0); cbn [negb] in Hr; [discriminate|].
+      eapply field_fail. exact Hr. }
+  (* withdrawn routes *)
+  assert (Hun : (if 0 <? wl then ap <- req MAL (fam_lookup (c_fams cd) F_IPV4);;
+                    (if Nat.ltb (length wd) (N.to_nat wl) then Panic 21 else nlri_list no_other F_IPV4 ap false wd)
+                 else Ok []) = (if 0 <? wl then field_parse cd F_IPV4 false wd else Ok [])).
+  { destruct (0 <? wl); [|reflexivity]. apply (unreach_stage cd wl wd Hwd). }
+  rewrite Hun in H. clear Hun.
+  destruct (if 0 <? wl then field_parse cd F_IPV4 false wd else Ok []) as [unreach|e1|t1] eqn:Hu; cbn [bind] in H;
+    [| |discriminate].
+  2:{ rewrite judge_parts_unloc2; [reflexivity|].
+      rewrite is_nil_len. replace (len wd =? 0) with (negb (0 <? wl)) by (unfold len; lia).
+      destruct (0 <? wl); cbn [negb]; [|discriminate]. eapply field_fail. exact Hu. }
+  (* MP_REACH_NLRI *)
+  assert (Hmr : u_mp_reach s2 = option_map t_val (first_code 14 tl)).
+  { subst s2. rewrite post_errs_mp_reach. apply (fold_mp_reach (c_two_byte cd) tl u0 s eq_refl eq_refl Efold). }
+  assert (Hmu : u_mp_unreach s2 = option_map t_val (first_code 15 tl)).
+  { subst s2. rewrite post_errs_mp_unreach. apply (fold_mp_unreach (c_two_byte cd) tl u0 s eq_refl eq_refl Efold). }
+  rewrite Hmr, Hmu in H.
+  destruct (first_code 14 tl) as [t14|] eqn:E14; cbn [option_map] in H.
+  - destruct (upd_mp_reach no_other cd (t_val t14)) as [x|e1|t1] eqn:Hx; cbn [bind] in H; [| |discriminate].
+    2:{ rewrite judge_parts_unloc3; [reflexivity|]. rewrite E14. eapply mp_reach_fail. exact Hx. }
+    destruct (first_code 15 tl) as [t15|] eqn:E15; cbn [option_map] in H.
+    + destruct (upd_mp_unreach no_other cd (t_val t15)) as [y|e1|t1] eqn:Hy; cbn [bind] in H; [| |discriminate].
+      2:{ rewrite judge_parts_unloc4; [reflexivity|]. rewrite E15. eapply mp_unreach_fail. exact Hy. }
+      pose proof (upd_finish_nofail cd s2 reach unreach (Some x) (Some y)) as Hnf. rewrite H in Hnf. destruct Hnf.
+    + cbn [bind] in H.
+      pose proof (upd_finish_nofail cd s2 reach unreach (Some x) None) as Hnf. rewrite H in Hnf. destruct Hnf.
+  - cbn [bind] in H.
+    destruct (first_code 15 tl) as [t15|] eqn:E15; cbn [option_map] in H.
+    + destruct (upd_mp_unreach no_other cd (t_val t15)) as [y|e1|t1] eqn:Hy; cbn [bind] in H; [| |discriminate].
+      2:{ rewrite judge_parts_unloc4; [reflexivity|]. rewrite E15. eapply mp_unreach_fail. exact Hy. }
+      pose proof (upd_finish_nofail cd s2 reach unreach None (Some y)) as Hnf. rewrite H in Hnf. destruct Hnf.
+    + cbn [bind] in H.
+      pose proof (upd_finish_nofail cd s2 reach unreach None None) as Hnf. rewrite H in Hnf. destruct Hnf.
+Qed.
+
+(* ------------------------------------------------ withdrawn prefixes, and the statements over raw bytes *)
+Definition withdrawn_of (u : pupdate) : list key :=
+  match u with UEor _ => [] | URoutes _ _ ur mur _ _ => mpuk ur ++ mpuk mur end.
+
+Lemma upd_finish_unreach cd s reach unreach mpr mpu u :
+  upd_finish cd s reach unreach mpr mpu = Ok u -> withdrawn_of u = keys F_IPV4 unreach ++ mpuk mpu.
+Proof.
+  unfold upd_finish. intro H.
+  assert (Hu : mpuk (if is_nil unreach then None else Some (F_IPV4, unreach)) = keys F_IPV4 unreach)
+    by (destruct unreach; reflexivity).
+  destruct mpu as [[fam [|e es]]|].
+  - destruct (is_nil reach && _ && is_nil unreach && _ && _) eqn:E.
+    + injection H as <-. repeat (apply andb_true_iff in E; destruct E as [E ?]).
+      destruct unreach; [reflexivity|discriminate].
+    + apply bind_ok in H. destruct H as (a & _ & H). injection H as <-. cbn [withdrawn_of]. rewrite Hu. reflexivity.
+  - apply bind_ok in H. destruct H as (a & _ & H). injection H as <-. cbn [withdrawn_of]. rewrite Hu. reflexivity.
+  - apply bind_ok in H. destruct H as (a & _ & H). injection H as <-. cbn [withdrawn_of]. rewrite Hu. reflexivity.
+Qed.
+
+Theorem C05_parsed_withdrawn cd hdr frame u :
+  parse_update no_other cd hdr frame = Ok u -> v_withdrawn (judge cd frame) = withdrawn_of u.
+Proof.
+  intro Hp.
+  destruct (parse_update_ok_inv _ _ _ _ Hp)
+    as (wl & wd & c & al & s & arem & Hloc & Hloop &
+        [[Heor ->]|[Heor (reach0 & unreach0 & mpr & mpu & Hr & Hun & Hmr & Hmu & Hfin)]]).
+  - destruct (proj2 (upd_locate_spec no_other no_other_consumes hdr frame) _ _ _ _ Hloc) as (Hal & Hwd & Hlen).
+    assert (al = 0 /\ wl = 0 /\ len c = 0) as (-> & -> & Hc) by lia.
+    assert (c = []) as -> by (destruct c; [reflexivity|rewrite len_cons in Hc; lia]).
+    assert (wd = []) as -> by (destruct wd; [reflexivity|cbn in Hwd; lia]).
+    rewrite (judge_cases _ _ _ _ _ _ _ Hloc). reflexivity.
+  - rewrite post_errs_mp_reach in Hmr. rewrite post_errs_mp_unreach in Hmu.
+    destruct (judge_of_parse _ _ _ _ _ _ _ _ _ _ _ _ _ Hloc Hloop Hr Hun Hmr Hmu) as (tl & ok & Hfold & Hok & Hj).
+    rewrite Hj. cbn [v_withdrawn verdict_of]. symmetry. eapply upd_finish_unreach. exact Hfin.
+Qed.
+
+(* an UPDATE frame that parses was parsed by the UPDATE arm *)
+Lemma parse_message_update p cd frame u :
+  parse_message no_other p cd frame = Ok (PUpdate u) ->
+  exists hdr, parse_update no_other cd hdr frame = Ok u.
+Proof.
+  unfold parse_message. intro H.
+  destruct (len frame <? 19); [discriminate|].
+  destruct (nth_error frame 18) as [code|]; cbn [must bind] in H; [|discriminate].
+  destruct (nth_error frame 16) as [b16|]; cbn [must bind] in H; [|discriminate].
+  destruct (nth_error frame 17) as [b17|]; cbn [must bind] in H; [|discriminate].
+  destruct (N.eq_dec code 2) as [->|N2].
+  { exists (mkn 1 2 [b16; b17]).
+    destruct (parse_update no_other cd (mkn 1 2 [b16; b17]) frame) as [u'| |]; cbn [bind] in H; try discriminate.
+    injection H as <-. reflexivity. }
+  exfalso.
+  destruct (N.eq_dec code 1) as [->|N1].
+  { unfold parse_open in H.
+    repeat match type of H with
+           | (if ?b then _ else _) = _ => destruct b
+           | (match ?x with _ => _ end) = _ => destruct x
+           | bind ?e _ = _ => destruct e as [[? ?]| |]; cbn [bind] in H
+           end; discriminate. }
+  destruct (N.eq_dec code 3) as [->|N3].
+  { destruct (len frame <? 21); [discriminate|]. destruct (skipn 19 frame) as [|? [|? ?]]; discriminate. }
+  destruct (N.eq_dec code 4) as [->|N4]; [destruct (negb _); discriminate|].
+  destruct (N.eq_dec code 5) as [->|N5].
+  { destruct (len frame <? 23); [discriminate|]. destruct (23 <? len frame); [discriminate|].
+    destruct (skipn 19 frame) as [|? [|? [|? [|? ?]]]]; discriminate. }
+  destruct code as [|q]; [discriminate|].
+  do 3 (destruct q as [q|q|]; try discriminate; try congruence).
+Qed.
+
+Lemma parse_message_update_fail p cd frame e :
+  nth_error frame 18 = Some 2 -> parse_message no_other p cd frame = Fail e ->
+  exists hdr e', parse_update no_other cd hdr frame = Fail e'.
+Proof.
+  unfold parse_message. intros H18 H.
+  destruct (len frame <? 19) eqn:E19.
+  { apply nth_error_Some_len in H18 || idtac. exfalso.
+    assert (Hn : nth_error frame 18 <> None) by congruence. apply nth_error_Some in Hn. unfold len in E19. lia. }
+  rewrite H18 in H. cbn [must bind] in H.
+  destruct (nth_error frame 16) as [b16|]; cbn [must bind] in H; [|discriminate].
+  destruct (nth_error frame 17) as [b17|]; cbn [must bind] in H; [|discriminate].
+  exists (mkn 1 2 [b16; b17]).
+  destruct (parse_update no_other cd (mkn 1 2 [b16; b17]) frame) as [u'|e'|]; cbn [bind] in H; try discriminate.
+  exists e'. reflexivity.
+Qed.
+
+Lemma in_mpk k m : In k (mpk m) -> exists f en nh x, m = Some (f, en, nh) /\ In x en /\ k = (f, fst x, snd x).
+Proof.
+  destruct m as [[[f en] nh]|]; [|intros []]. cbn [mpk]. unfold keys. intro H. apply in_map_iff in H.
+  destruct H as (x & <- & Hx). exists f, en, nh, x. repeat split; auto.
+Qed.
+Lemma in_mpuk k m : In k (mpuk m) -> exists f en x, m = Some (f, en) /\ In x en /\ k = (f, fst x, snd x).
+Proof.
+  destruct m as [[f en]|]; [|intros []]. cbn [mpuk]. unfold keys. intro H. apply in_map_iff in H.
+  destruct H as (x & <- & Hx). exists f, en, x. repeat split; auto.
+Qed.
+
+(* (1) over raw bytes: an UPDATE frame the RFC 7606 classifier calls faulty announces nothing, and
+   every prefix it announces is delivered as a withdrawal *)
+Theorem C05_bad_update_installs_nothing_bytes p cd frame u e :
+  parse_message no_other p cd frame = Ok (PUpdate u) ->
+  v_must_withdraw (judge cd frame) = true ->
+  let out := validate_update u e in
+  (forall m, In m out -> is_reach m = false) /\
+  (forall k, In k (v_announced (judge cd frame)) ->
+     exists f en x, In (VUnreach f en) out /\ In x en /\ k = (f, fst x, snd x)).
+Proof.
+  intros Hpm Hmw. cbv zeta. destruct (parse_message_update _ _ _ _ Hpm) as (hdr & Hp).
+  destruct (C05_parsed_is_locatable _ _ _ _ Hp) as [_ Han]. rewrite Han.
+  destruct u as [f|r mr ur mur attrs errs].
+  - split; [intros m [<-|[]]; reflexivity|intros k []].
+  - pose proof (C05_judge_faulty _ _ _ _ _ _ _ _ _ Hp Hmw) as Hf.
+    destruct (C05_bad_update_installs_nothing r mr ur mur attrs errs e Hf) as [H1 H2].
+    split; [exact H1|]. intros k Hk. cbn [announced_of] in Hk. apply in_app_or in Hk.
+    destruct Hk as [Hk|Hk]; apply in_mpk in Hk; destruct Hk as (f & en & nh & x & -> & Hx & ->);
+      exists f, en, x; (split; [|split; [exact Hx|reflexivity]]); apply (H2 f en nh); apply in_or_app;
+      [left|right]; left; reflexivity.
+Qed.
+
+(* (1b) over raw bytes: after the messages of a faulty UPDATE none of its announced prefixes is in the RIB *)
+Theorem C05_bad_update_leaves_no_route_bytes p cd frame u e (r : rib) :
+  parse_message no_other p cd frame = Ok (PUpdate u) ->
+  v_must_withdraw (judge cd frame) = true ->
+  forall k, In k (v_announced (judge cd frame)) -> has_key (apply_all r (validate_update u e)) k = false.
+Proof.
+  intros Hpm Hmw k Hk.
+  destruct (C05_bad_update_installs_nothing_bytes p cd frame u e Hpm Hmw) as [H1 H2].
+  destruct (H2 k Hk) as (f & en & x & Hin & Hx & ->).
+  eapply apply_no_reach_removes; eassumption.
+Qed.
+
+(* (2) over raw bytes: every withdrawal the Spec finds in the frame is delivered *)
+Theorem C05_withdrawals_survive_bytes p cd frame u e :
+  parse_message no_other p cd frame = Ok (PUpdate u) ->
+  forall k, In k (v_withdrawn (judge cd frame)) ->
+  exists f en x, In (VUnreach f en) (validate_update u e) /\ In x en /\ k = (f, fst x, snd x).
+Proof.
+  intros Hpm k Hk. destruct (parse_message_update _ _ _ _ Hpm) as (hdr & Hp).
+  rewrite (C05_parsed_withdrawn _ _ _ _ Hp) in Hk.
+  destruct u as [f|r mr ur mur attrs errs]; [destruct Hk|].
+  cbn [withdrawn_of] in Hk. apply in_app_or in Hk.
+  destruct Hk as [Hk|Hk]; apply in_mpuk in Hk; destruct Hk as (f & en & x & -> & Hx & ->);
+    exists f, en, x; (split; [|split; [exact Hx|reflexivity]]);
+    apply C05_withdrawals_survive_errors; apply in_or_app; [left|right]; left; reflexivity.
+Qed.
+
+(* (3) over raw bytes: parsing an UPDATE frame ends in a session-reset NOTIFICATION only when the
+   Spec cannot locate or parse its NLRI; validation itself never resets (validate_update is total) *)
+Theorem C05_reset_only_if_nlri_unlocatable p cd frame e :
+  nth_error frame 18 = Some 2 -> parse_message no_other p cd frame = Fail e ->
+  v_locatable (judge cd frame) = false.
+Proof.
+  intros H18 H. destruct (parse_message_update_fail _ _ _ _ H18 H) as (hdr & e' & Hp).
+  eapply C05_reset_only_if_unlocatable. exact Hp.
+Qed.
+
+(* Non-vacuity: a frame the Spec calls faulty that parses (AGGREGATOR with the transitive bit cleared) *)
+Example judge_faulty_example :
+  let frame := [255;255;255;255;255;255;255;255;255;255;255;255;255;255;255;255;0;56;2;0;0;0;29;
+                64;1;1;0; 64;2;6;2;1;0;0;253;233; 64;3;4;192;0;2;1; 128;7;6;253;233;1;1;1;1; 24;10;0;0] in
+  (exists u, parse_message no_other Debug codec_v4 frame = Ok (PUpdate u)) /\
+  v_must_withdraw (judge codec_v4 frame) = true /\ v_announced (judge codec_v4 frame) = [(F_IPV4, 0, NV4 24 [10;0;0;0])].
+Proof. cbv zeta. split; [eexists; vm_compute; reflexivity|split; vm_compute; reflexivity]. Qed.
+
+(* ... and one the Spec cannot locate (attribute length beyond the frame), which is the reset case *)
+Example judge_unlocatable_example :
+  let frame := [255;255;255;255;255;255;255;255;255;255;255;255;255;255;255;255;0;23;2;0;0;0;9] in
+  (exists e, parse_message no_other Debug codec_v4 frame = Fail e) /\ v_locatable (judge codec_v4 frame) = false.
+Proof. cbv zeta. split; [eexists; vm_compute; reflexivity|vm_compute; reflexivity]. Qed.
+
+Theorem C05_parsed_update_is_locatable p cd frame u :
+  parse_message no_other p cd frame = Ok (PUpdate u) ->
+  v_locatable (judge cd frame) = true /\ v_announced (judge cd frame) = announced_of u /\
+  v_withdrawn (judge cd frame) = withdrawn_of u.
+Proof.
+  intro Hpm. destruct (parse_message_update _ _ _ _ Hpm) as (hdr & Hp).
+  destruct (C05_parsed_is_locatable _ _ _ _ Hp) as [H1 H2].
+  split; [exact H1|]. split; [exact H2|]. apply (C05_parsed_withdrawn _ _ _ _ Hp).
 Qed.
